@@ -372,7 +372,7 @@ theorem indexClass_balanced (n : PTree) : Keeps SEq (Index.indexClass r n) := by
   split
   · refine Triple.bind (Triple.seq_at (utilsIdentifier_keeps _) s0) fun _ => ?_
     split
-    · refine Triple.bind (Triple.seq_at (addRecord_keeps _ _) s0) fun _ => ?_
+    · refine Triple.bind (Triple.seq_at (addRecord_keeps _ _ ⟨rfl, rfl⟩) s0) fun _ => ?_
       refine Triple.bind (Triple.push s0 _ rfl) fun _ => ?_
       dsimp only
       have tail : Triple (InBlock s0 (ScopeKind.record ‹Nat›))
